@@ -413,6 +413,14 @@ Theorem model_follows_generated_dispatch : forall (T : Type) (HN : Num T) (HR : 
 Proof. exact model_follows_generated. Qed.
 Print Assumptions model_follows_generated_dispatch.
 
+(* _inner_default, regenerated decision tree: for every size regime (below / above THRESHOLD_MEDIUM)
+   real dtypes run the bilinear sum and complex dtypes the sum with the second argument conjugated
+   -- the two kernels the model uses ([dot], [c_inner_v]); moving a condition breaks this proof *)
+Theorem inner_kernel_dispatch_all_sizes : forall large : bool,
+  ksel true large gen_inner_default = KBilinear /\ ksel false large gen_inner_default = KConjSecond.
+Proof. exact tie_inner_default. Qed.
+Print Assumptions inner_kernel_dispatch_all_sizes.
+
 (* ================= executed instance = rational restriction of the proved instance ================= *)
 (* The inner product of every space tree (tensor and discretized leaves with partitions,
    boundary-cell fractions, isclose snapping, boundary weight array, is_uniformly_weighted; nested
